@@ -12,7 +12,7 @@ pub fn property() -> Property {
     Property {
         id: "C03",
         level: "exploration",
-        rule: "(a) every pseudo-legal move (legal or not) of generated positions with half-move clocks concentrated on {0,1,99,100,127..130,255,256,1000,4095} and full-move numbers up to 4*10^9 is made and unmade (also through is_move_legal); (b) lines of up to 40 legal moves made and then unmade in reverse with a snapshot compared at every level. Oracle: snapshot (FEN text, 12 piece bitboards, 4 rights, e.p., side, both clocks, both hashes recomputed) before == after. Non-trivial = distinct (4-field FEN, move) where the move is pseudo-legal but illegal, or castle / e.p. / promotion, or the clock is >= 128",
+        rule: "(a) every pseudo-legal move (legal or not) of generated positions with half-move clocks concentrated on {0,1,99,100,127..130,255,256,1000,4095} and full-move numbers 0 and 1 up to 4*10^9 is made and unmade (also through is_move_legal); (b) lines of up to 40 legal moves made and then unmade in reverse with a snapshot compared at every level. Oracle: snapshot (FEN text, 12 piece bitboards, 4 rights, e.p., side, both clocks, both hashes recomputed) before == after. Non-trivial = distinct (4-field FEN, move) where the move is pseudo-legal but illegal, or castle / e.p. / promotion, or the clock is >= 128",
         assumptions: &["occupancy[0] of PlayerState is a scratch slot and deliberately not part of the snapshot", "half-move clock <= 4095 (the 12-bit undo field stated by the property)"],
         parts: vec![
             Part {
@@ -20,7 +20,21 @@ pub fn property() -> Property {
                 quick: 60_000,
                 thorough: 2_000_000,
                 single_shard: false, supplementary: false,
-                run: |cfg| run_part(cfg, gen::raw_pos(80), |r| PosCase { fen: gen::position(r, ClockDomain::Unmake).fen() }, check_sweep),
+                run: |cfg| {
+                    run_part(
+                        cfg,
+                        (gen::raw_pos(80), 0..24u8),
+                        |(r, zero)| {
+                            // "any full-move number": the reader also accepts 0 (set-up positions of some tools)
+                            let mut p = gen::position(r, ClockDomain::Unmake);
+                            if *zero == 0 {
+                                p.full = 0;
+                            }
+                            PosCase { fen: p.fen() }
+                        },
+                        check_sweep,
+                    )
+                },
                 replay: |v| replay_case::<PosCase, _>(v, check_sweep),
             },
             Part {
@@ -36,6 +50,9 @@ pub fn property() -> Property {
                             // every position of the line must stay inside the property's clock domain (<= 4095)
                             let mut start = gen::seed_position(r, ClockDomain::Unmake);
                             start.half = start.half.min(4095 - r.choices.len() as u64);
+                            if r.seed % 24 == 5 {
+                                start.full = 0;
+                            }
                             gen::play_from(start, &r.choices).to_game()
                         },
                         check_line,
@@ -126,6 +143,9 @@ pub fn check_sweep(case: &PosCase, ctx: &mut Ctx) -> Result<(), String> {
         if p.half >= 128 {
             ctx.class("clock_ge_128");
             nt = true;
+        }
+        if p.full == 0 {
+            ctx.class("full_move_number_0");
         }
         if nt {
             ctx.nontrivial((p.fen4(), p.half, u));
